@@ -38,7 +38,11 @@ def p2p_module(fresh=False):
         m.__package__ = old.__package__
         m.__spec__ = old.__spec__
         m.__loader__ = getattr(old, "__loader__", None)
-        exec(_code, m.__dict__)
+        S.global_patch_on()  # locks created by the module body are scheduler-aware
+        try:
+            exec(_code, m.__dict__)
+        finally:
+            S.global_patch_off()
         sys.modules[old.__name__] = m
         sys.modules["bits"].p2p = m
         S.patch_modules([m])
